@@ -87,6 +87,7 @@ class LoopInfo:
         self.body_paths = []
         self.carried = {}  # name -> (pre_term, [post terms per completing body path])
         self.has_else = False
+        self.enum_start = "absent"  # `for i, x in enumerate(xs, start)`: the start term (None when not given); "absent" for other loops
 
     @property
     def lineno(self):
@@ -925,6 +926,28 @@ class Evaluator:
             info.accumulates = getattr(info, "accumulates", {})
             info.accumulates[name] = comp
 
+    def _class_display_elements(self, node):
+        """`self.X` / `cls.X` / `Class.X` naming a class-level tuple/list/str of at most four constants that no instance replaces: its elements."""
+        if not (isinstance(node, ast.Attribute) and isinstance(node.value, ast.Name)):
+            return None
+        cls = None
+        if node.value.id in ("self", "cls") and self.fn.cls is not None and self.fn.params and node.value.id == self.fn.params[0] and not self.fn.is_staticmethod:
+            cls = self.fn.cls  # (also when inlined into a caller of the same hierarchy: subclasses that re-define the attribute are excluded below)
+        else:
+            r = self.p.resolve_module_name(self.module, node.value.id) if node.value.id not in self.locals else None
+            if r and r[0] == "class":
+                cls = r[1]
+        if cls is None:
+            return None
+        owner, expr = cls.find_assign(node.attr)
+        if owner is None or any(node.attr in sc.assigns for sc in self.p.subclasses(cls)) or _attr_assigned_on_instances(self.p, cls, node.attr):
+            return None
+        if isinstance(expr, (ast.Tuple, ast.List)) and 0 < len(expr.elts) <= 4 and all(isinstance(e, ast.Constant) for e in expr.elts):
+            return list(expr.elts)
+        if isinstance(expr, ast.Constant) and isinstance(expr.value, str) and 0 < len(expr.value) <= 4:
+            return [ast.Constant(value=c) for c in expr.value]
+        return None
+
     def _const_table_elements(self, node):
         """AST elements (and defining module) of a module-level constant tuple/list display named by `node`."""
         if not isinstance(node, ast.Name) or node.id in self.locals:
@@ -1093,8 +1116,9 @@ class Evaluator:
                 if len(live) + len(done) > MAX_PATHS:
                     raise AnalysisError("path explosion unrolling a table loop in %s" % self.fn.qualname)
             return live + done
-        if isinstance(st.iter, (ast.Constant, ast.Tuple, ast.List)) and not st.orelse:
-            elems = None
+        cls_elems = self._class_display_elements(st.iter) if not st.orelse else None
+        if (isinstance(st.iter, (ast.Constant, ast.Tuple, ast.List)) or cls_elems is not None) and not st.orelse:
+            elems = cls_elems
             if isinstance(st.iter, ast.Constant) and isinstance(st.iter.value, str) and 0 < len(st.iter.value) <= 4:
                 elems = [ast.Constant(value=c) for c in st.iter.value]
             elif isinstance(st.iter, (ast.Tuple, ast.List)) and 0 < len(st.iter.elts) <= 4 and not any(isinstance(e, ast.Starred) for e in st.iter.elts):
@@ -2234,6 +2258,7 @@ class _Subst:
         nl.test = self.term(li.test) if li.test is not None else None
         nl.target = li.target
         nl.has_else = li.has_else
+        nl.enum_start = self.term(li.enum_start) if isinstance(li.enum_start, tuple) else li.enum_start
         nl.body_paths = [self.path(bp) for bp in li.body_paths]
         nl.carried = {n: (self.term(pre), [self.term(x) for x in posts]) for n, (pre, posts) in li.carried.items()}
         self.ev.loops[nl.uid] = nl
